@@ -8,7 +8,7 @@ BACKENDS = ["cdb", "rdb1", "rdb2"]
 def cbytes(l):
     """a byte string as one number literal (base 256 behind a leading 1), decoded by Run.Core.B:
     Coq parses this far faster than a list of N literals"""
-    return "(B %d)" % int.from_bytes(b"\x01" + bytes(int(x) & 255 for x in l), "big")
+    return "(B 0x%x)" % int.from_bytes(b"\x01" + bytes(int(x) & 255 for x in l), "big")
 
 
 def labels(packed):
